@@ -14,7 +14,7 @@ use vpmodel::spec::ChainSpec;
 pub const DEF: PropDef = PropDef {
     id: "C13",
     level: "exploration",
-    rule: "part 'threads': chains whose blocks hold up to hundreds of transactions and outputs (so that both nested parallel collects really split work) are processed with RAYON_NUM_THREADS in {1,2,3,8,16,64}, with 64 threads pinned to one CPU, and with 4 / 8 threads whose futex calls are delayed by injected syscall delays (every 2nd / 3rd call of every thread), while the other 15 shards keep all cores busy; every run must equal the reference model and the 1-thread run (csvdump byte-identical; simplestats report equal modulo the unordered type list; opreturn text identical; unspent/balances identical row sets). part 'reruns': sequences of 3..6 runs of generated callbacks sharing one data directory and one dump folder that is pre-seeded with longer stale *.tmp files and final-named files of an earlier range; after every run the callback's files must equal the model, no *.tmp of that callback may remain, SHA-256 of every blk*.dat and xor.dat and the key/value content of the index must be unchanged. part 'same-directory-repeated': data directories with competing index records (C04's generator: stale siblings, failed blocks and reorged-out branches with data in a second blk file, header-only records) are processed by 6 fresh processes with different thread counts; all 6 results (exit status and canonical output) must be identical - no model is involved, so the open finding D7 of C04 does not interfere. Non-trivial = >=2 thread settings compared on a block with >=64 txs, a sequence of >=3 runs, or a directory with a competing record at an occupied height; distinct by (chain hash, settings). In 'reruns' the chains carry arbitrary header times (incl. a class within hours of the current wall clock) and every run after the first has its wall clock shifted by an LD_PRELOAD shim to within hours or a day of one block's header time, or decades away.",
+    rule: "part 'threads': chains whose blocks hold up to hundreds of transactions and outputs (so that both nested parallel collects really split work) are processed with RAYON_NUM_THREADS in {1,2,3,8,16,64,97,300} (more workers than a block has transactions or a transaction has outputs), with 64 threads pinned to one CPU, and with 4 / 8 threads whose futex calls are delayed by injected syscall delays (every 2nd / 3rd call of every thread), while the other 15 shards keep all cores busy; every run must equal the reference model and the 1-thread run (csvdump byte-identical; simplestats report equal modulo the unordered type list; opreturn text identical; unspent/balances identical row sets). part 'reruns': sequences of 3..6 runs of generated callbacks sharing one data directory and one dump folder that is pre-seeded with longer stale *.tmp files and final-named files of an earlier range; after every run the callback's files must equal the model, no *.tmp of that callback may remain, SHA-256 of every blk*.dat and xor.dat and the key/value content of the index must be unchanged. part 'same-directory-repeated': data directories with competing index records (C04's generator: stale siblings, failed blocks and reorged-out branches with data in a second blk file, header-only records) are processed by 6 fresh processes with different thread counts; all 6 results (exit status and canonical output) must be identical - no model is involved, so the open finding D7 of C04 does not interfere. Non-trivial = >=2 thread settings compared on a block with >=64 txs, a sequence of >=3 runs, or a directory with a competing record at an occupied height; distinct by (chain hash, settings). In 'reruns' the chains carry arbitrary header times (incl. a class within hours of the current wall clock) and every run after the first has its wall clock shifted by an LD_PRELOAD shim to within hours or a day of one block's header time, or decades away.",
     assumptions: &["rayon's scheduler cannot be owned from outside: thread counts, CPU pinning and load sample interleavings, they do not enumerate them (DESIGN section 8)"],
     run,
     replay,
@@ -76,7 +76,7 @@ pub fn check_threads(c: &ThreadCase) -> Verdict {
     let all = built.all();
     // (threads, pinned to one CPU, futex perturbation): the last two settings delay every k-th futex
     // call of every thread (strace syscall-delay injection), which shifts wake-ups and work stealing
-    let settings: [(u32, bool, Option<&str>); 9] = [(1, false, None), (2, false, None), (3, false, None), (8, false, None), (16, false, None), (64, false, None), (64, true, None), (4, false, Some("1+2")), (8, false, Some("2+3"))];
+    let settings: [(u32, bool, Option<&str>); 11] = [(1, false, None), (2, false, None), (3, false, None), (8, false, None), (16, false, None), (64, false, None), (64, true, None), (97, false, None), (300, false, None), (4, false, Some("1+2")), (8, false, Some("2+3"))];
     let mut runs = 0;
     for cb in [Callback::CsvDump, c.second] {
         let mut reference: Option<String> = None;
@@ -114,7 +114,7 @@ pub fn check_threads(c: &ThreadCase) -> Verdict {
     let maxtx = built.blocks.iter().map(|(_, b)| b.txs.len()).max().unwrap_or(0);
     let maxout = built.blocks.iter().flat_map(|(_, b)| b.txs.iter().map(|t| t.outputs.len())).max().unwrap_or(0);
     let classes = vec![format!("max-txs={}", match maxtx { 0..=63 => "<64", 64..=199 => "64-199", _ => ">=200" }), format!("max-outputs={}", match maxout { 0..=15 => "<16", 16..=255 => "16-255", _ => ">=256" }), format!("second={}", c.second.cli())];
-    let sample = serde_json::json!({"coin": built.coin.cli(), "blocks": built.blocks.len(), "max_txs_per_block": maxtx, "max_outputs_per_tx": maxout, "settings": "1,2,3,8,16,64,64-pinned", "callbacks": ["csvdump", c.second.cli()]});
+    let sample = serde_json::json!({"coin": built.coin.cli(), "blocks": built.blocks.len(), "max_txs_per_block": maxtx, "max_outputs_per_tx": maxout, "settings": "1,2,3,8,16,64,64-pinned,97,300", "callbacks": ["csvdump", c.second.cli()]});
     Verdict::Pass(Pass { nontrivial: maxtx >= 64, key: key_of(c), classes, known: vec![], sub_evals: runs, sample: Some(sample), extra_keys: vec![] })
 }
 
